@@ -444,3 +444,5 @@ def check(run, prog):
     rule_comment_layout(run, prog, "R-9.9")
     from .c03_comment_layout import rule_literal_layout
     rule_literal_layout(run, prog, "R-9.10")
+    from .c09_notice_positions import rule_escape_notice_positions
+    rule_escape_notice_positions(run, prog)  # R-9.11
